@@ -187,6 +187,10 @@ pub fn scaled_boxes() -> Vec<BoxSpec> {
     vec![
         BoxSpec { name: "bt", anchor: v3(0., 0., 0.), width: v3(t, 2. * t, t) },
         BoxSpec { name: "bh", anchor: v3(h, -2. * h, 0.), width: v3(h, h, 2. * h) },
+        // a box of ordinary size far from the origin: coordinates carry 26 bits of magnitude that the geometry does
+        // not need (anything stored or compared in reduced precision, or with a tolerance relative to the
+        // coordinates instead of the box, fails here); translation by a power of two keeps the lattice alphabets exact
+        BoxSpec { name: "bf", anchor: v3(h * 64., -h * 64., h * 32.), width: v3(1., 2., 1.) },
     ]
 }
 
